@@ -543,9 +543,15 @@ impl Life {
                         let k = err_name(e.kind());
                         self.diag.push(format!("{}: {:?}", self.step, e));
                         bump(&mut self.feat, &format!("err:{}", k));
+                        // The pool of a failed provisioning is dropped, not closed.  sqlx's `connect_with` races its own
+                        // min-connections maintenance task, so a second connection (opened with SQLITE_OPEN_CREATE) may still be
+                        // on its way; if it arrives after a following `remove` it re-creates an empty file (seen about once in
+                        // 2000 sequences under load).  Let it land before the sequence goes on.
+                        std::thread::sleep(std::time::Duration::from_millis(30));
                         if on_existing {
                             self.judge_open("provision", Some(m), &pass, &profile, &Err(k));
                             let after = snapshot(&path);
+                            if before.is_some() { bump(&mut self.feat, "snapshot_compared"); }
                             if before.is_some() && before != after { self.fail("open-failed:store-changed".into(), json!({"op": "provision"})); }
                         } else {
                             // with `recreate` the old store is gone by now; otherwise there was none
@@ -597,6 +603,7 @@ impl Life {
                         if self.rf.exists {
                             self.judge_open("open", gm, &pass, &profile, &Err(k));
                             let after = snapshot(&path);
+                            if before.is_some() { bump(&mut self.feat, "snapshot_compared"); }
                             if before.is_some() && before != after { self.fail("open-failed:store-changed".into(), json!({"op": "open"})); }
                         } else {
                             bump(&mut self.feat, "open_no_store");
@@ -852,11 +859,26 @@ fn gen_uri_opts(r: &mut Rng, id: String) -> Value {
         user = u; password = p; host = h; path = pa;
         fragment = arb(r);
     } else {
-        scheme = if r.chance(1, 3) { "sqlite".to_string() } else { arb(r) };
-        user = if r.chance(1, 2) { String::new() } else { arb(r) };
-        password = if r.chance(1, 2) { String::new() } else { arb(r) };
-        host = match r.below(4) { 0 => ":memory:".to_string(), 1 => "h".to_string(), _ => arb(r) };
-        path = match r.below(4) { 0 => "/tmp/x.db".to_string(), 1 => format!("/{}", arb(r)), _ => arb(r) };
+        let mut sc = if r.chance(1, 3) { "sqlite".to_string() } else { arb(r) };
+        let mut u = if r.chance(1, 2) { String::new() } else { arb(r) };
+        let mut p = if r.chance(1, 2) { String::new() } else { arb(r) };
+        let mut h = match r.below(4) { 0 => ":memory:".to_string(), 1 => "h".to_string(), _ => arb(r) };
+        let mut pa = match r.below(4) { 0 => "/tmp/x.db".to_string(), 1 => format!("/{}", arb(r)), _ => arb(r) };
+        if r.chance(3, 5) {
+            // leave the domain on purpose, one clause at a time
+            match r.below(9) {
+                0 => h.push_str(pk(r, &["/", "?", "#", "a/b", "?x=1", "#f"])),
+                1 => h.push_str(pk(r, &["%41", "%2F", "%c3%a9", "%00", "%25"])),
+                2 => pa = format!("{}{}", plain(r, 1, 4), pa),
+                3 => pa = format!("/{}{}", pa, pk(r, &["?", "#", "?a=b", "#x", "%41", "%2f", "%7E"])),
+                4 => { u.clear(); p.clear(); if r.chance(1, 2) { h.push('@'); } else { pa = format!("/a@b{}", pa); } }
+                5 => { sc.clear(); u.clear(); p.clear(); h = format!("h:{}", h.replace('/', "")); }
+                6 => { sc.clear(); u = plain(r, 1, 4); }
+                7 => { if sc.is_empty() { sc.push('s'); } u.clear(); p.clear(); h.clear(); pa = format!("//{}", pa); }
+                _ => { sc.clear(); u.clear(); p.clear(); h = "h".into(); pa = "/a:b".into(); }
+            }
+        }
+        scheme = sc; user = u; password = p; host = h; path = pa;
         fragment = arb(r);
     }
     json!({"kind": "c08:uri-opts", "id": id,
